@@ -114,11 +114,16 @@ func shapeRoot(r *rand.Rand, doc string) (string, string) {
 	start, rest := doc[i:end], doc[end:]
 	issOpen := strings.Index(rest, "<saml:Issuer>")
 	issClose := strings.Index(rest, "</saml:Issuer>")
-	kinds := []string{"dup-id", "dup-destination", "dup-inresponseto", "prefixed-id", "prefixed-destination", "attr-refs", "attr-whitespace", "two-issuers", "two-issuers-rev", "foreign-issuer-first", "foreign-issuer-last",
+	kinds := []string{"dup-id-around-prefixed", "dup-dest-around-prefixed", "dup-id", "dup-destination", "dup-inresponseto", "prefixed-id", "prefixed-destination", "attr-refs", "attr-whitespace", "two-issuers", "two-issuers-rev", "foreign-issuer-first", "foreign-issuer-last",
 		"nested-issuer", "issuer-comment", "issuer-cdata", "issuer-refs", "issuer-attrs", "bom", "doctype", "leading-stuff", "decl-utf8", "decl-latin1", "decl-utf16-label", "decl-ascii", "decl-standalone", "version-dup", "xml-attrs", "trailing-stuff"}
 	k := kinds[r.IntN(len(kinds))]
 	pre := ""
 	switch k {
+	case "dup-id-around-prefixed":
+		// plain, foreign-namespace, plain again: the parsers disagree on which one is "the" ID
+		start = strings.Replace(start, " ID=", ` xmlns:x="urn:x" ID="_first" x:ID="_shadow" ID=`, 1)
+	case "dup-dest-around-prefixed":
+		start = strings.Replace(start, " Destination=", ` xmlns:x="urn:x" Destination="`+ACS+`" x:Destination="https://evil.example/acs" x:InResponseTo="_shadow" Destination=`, 1)
 	case "dup-id":
 		start = strings.Replace(start, " ID=", ` ID="_evil_first" ID=`, 1) + ` ID="_evil_last"`
 	case "dup-destination":
@@ -326,7 +331,7 @@ func runC20(c *mon.Ctx) {
 		}
 		shaped, kind := shapeRoot(r, base)
 		switch kind {
-		case "dup-id", "dup-destination", "dup-inresponseto", "version-dup", "bom", "doctype", "leading-stuff", "trailing-stuff", "decl-utf8", "decl-latin1", "decl-utf16-label", "decl-ascii", "decl-standalone":
+		case "dup-id-around-prefixed", "dup-dest-around-prefixed", "dup-id", "dup-destination", "dup-inresponseto", "version-dup", "bom", "doctype", "leading-stuff", "trailing-stuff", "decl-utf8", "decl-latin1", "decl-utf16-label", "decl-ascii", "decl-standalone":
 			cs.Outcome("shape-not-representable-after-signing")
 			continue
 		}
